@@ -93,7 +93,7 @@ def path_case(draw, n=(2, 4), raman=False, max_ch=40, multiband=False):
     lo = int(si['f_min'] / 1e6) - (0 if profiled else draw(st.sampled_from([0, 0, 0, 200000])))
     comb = draw(spectra.comb(1, max_ch, f_start=(lo, int(si['f_max'] / 1e6) - 400000), power=(-6.0, 6.0),
                              f_stop=int(si['f_max'] / 1e6) + (0 if profiled else draw(st.sampled_from([0, 0, 100000])))))
-    nli = draw(st.sampled_from(['gn_model_analytic'] * 4 + ['ggn_approx']))
+    nli = draw(st.sampled_from(['gn_model_analytic'] * 3 + ['ggn_approx'] * 2))
     # GGN evaluated on a few channels only and interpolated (held at the edge values) for the others; indices <= 3 so that
     # they exist whatever the in-band filter removes from a comb of >= 10 carriers
     computed = draw(st.sampled_from([None, [1, 2], [1, 3], [2, 3]])) if nli == 'ggn_approx' and len(comb) >= 10 else None
@@ -363,7 +363,7 @@ def make_check(prop):
         return Check('path-monotonic-multiband', band_path_case(), run_c02, quick=300, thorough=10000,
                      doc='same through C+L multiband amplifiers and mixed-band links')
     if prop == 'C02':
-        return Check('path-monotonic', path_case(), run_c02, quick=220, thorough=8000,
+        return Check('path-monotonic', path_case(), run_c02, quick=320, thorough=8000,
                      doc='per-element, per-channel ASE/signal and NLI/signal ratios never decrease; passive unchanged')
     if prop == 'C02-raman':
         return Check('path-monotonic-raman', path_case(n=(2, 3), raman=True, max_ch=12), run_c02, quick=60, thorough=1200,
